@@ -330,6 +330,28 @@ func init() {
 		c, s := ex.sliceComp(elem)
 		ms.add(c, s)
 	}
+	genericModels["maps.Clone"] = func(ex *Exec, fr *frame, st *State, reach *Term, args []Value, instr ssa.Instruction, fn *ssa.Function) Value {
+		m := args[0].(*Term)
+		mt := types.Unalias(fn.Signature.Params().At(0).Type()).Underlying().(*types.Map)
+		d, v, l, ks, vs := ex.mapComps(mt)
+		r := ex.freshRef(st, reach, "mapclone")
+		dc := ex.comp(st, d, ArraySort(SInt, ArraySort(ks, SBool)))
+		vcmp := ex.comp(st, v, ArraySort(SInt, ArraySort(ks, vs)))
+		lc := ex.comp(st, l, ArraySort(SInt, ex.vc.IntSort()))
+		ex.setComp(st, d, Store(dc, r, Select(dc, m)))
+		ex.setComp(st, v, Store(vcmp, r, Select(vcmp, m)))
+		ex.setComp(st, l, Store(lc, r, Select(lc, m)))
+		ex.vc.note("maps.Clone modelled as: a fresh map with the same domain and values (nil for nil)")
+		return ex.vc.Def("mapclone", Ite(Eq(m, IntLit(0)), IntLit(0), r))
+	}
+	genericModelMods["maps.Clone"] = func(ex *Exec, ms *modSet, fn *ssa.Function) {
+		mt := types.Unalias(fn.Signature.Params().At(0).Type()).Underlying().(*types.Map)
+		d, v, l, ks, vs := ex.mapComps(mt)
+		ms.add("alive", aliveSort)
+		ms.addFresh(d, ArraySort(SInt, ArraySort(ks, SBool)))
+		ms.addFresh(v, ArraySort(SInt, ArraySort(ks, vs)))
+		ms.addFresh(l, ArraySort(SInt, ex.vc.IntSort()))
+	}
 	genericModels["slices.Sort"] = genericModels["slices.SortFunc"]
 	genericModelMods["slices.Sort"] = genericModelMods["slices.SortFunc"]
 	models["sort.Strings"] = func(ex *Exec, fr *frame, st *State, reach *Term, args []Value, instr ssa.Instruction) Value {
